@@ -184,12 +184,21 @@ def build(engine, quiet=False):
 
 
 def prune(engine, keep_objs, keep_exe):
-    """Disk is limited: keep the current build and the previous one."""
+    """Disk is limited: keep the four most recent generations, and never
+    remove anything younger than two hours (another check, possibly on
+    another tree, may be using it)."""
+    now = time.time()
+
+    def old_enough(path):
+        try:
+            return now - os.path.getmtime(path) > 7200
+        except OSError:
+            return False
     bindir = os.path.join(BUILD, "bin")
     exes = sorted(glob.glob(os.path.join(bindir, engine + "-*")),
                   key=os.path.getmtime)
-    for old in exes[:-2]:
-        if old != keep_exe:
+    for old in exes[:-4]:
+        if old != keep_exe and old_enough(old):
             try:
                 os.remove(old)
             except OSError:
@@ -201,8 +210,8 @@ def prune(engine, keep_objs, keep_exe):
     for o in objs:
         by_name.setdefault(os.path.basename(o).rsplit("-", 1)[0], []).append(o)
     for name, lst in by_name.items():
-        for old in lst[:-2]:
-            if old not in keep_objs:
+        for old in lst[:-4]:
+            if old not in keep_objs and old_enough(old):
                 try:
                     os.remove(old)
                 except OSError:
